@@ -115,7 +115,8 @@ theorem loOn_of_operandsOK {d : List (DomVar (Ext K))} (hnd : (d.map (·.name)).
 /-- the piecewise-linear fragment satisfies the contract. -/
 theorem GoodE.ofFG {d : List (DomVar (Ext K))} {e : Exp (Ext K)} (h : FG true (inScope d) e) (hd : DefinedE e) :
     GoodE d e :=
-  ⟨h.2, finE_of_definedE e h.1 hd, fun ρ _ => logicOperands01_of_frag true ρ e h.1, fun ρ _ => hd ρ⟩
+  ⟨h.2, finE_of_definedE e h.1 hd, NCon.ofLO (fun ρ _ => logicOperands01_of_frag true ρ e h.1) (fun ρ _ => hd ρ),
+    fun ρ _ => hd ρ⟩
 
 theorem LogicModel.ofFragModel {m : Model (Ext K)} {d : List (DomVar (Ext K))} (h : FragModel true m d) :
     LogicModel m d :=
